@@ -482,6 +482,27 @@ def check_construct(case, ctx: Ctx):
     if dt:
         kw["dtype"] = dt
     ctx.label(f"w_{wk}", f"dtype_{dt}")
+    if case.get("ctor_err2"):
+        # the class constructor with whole-number contents and the squared errors of fractional weights
+        from physt.histogram1d import Histogram1D
+
+        n_ = len(ps)
+        fr = np.array([(i % 3) + 1 for i in range(n_)], dtype=np.int64)
+        e2 = [[0.5, 0.25, 1.5, 2.0][(i + case["ctor_err2"]) % 4] for i in range(n_)]
+        fractional = any(x != int(x) for x in e2)
+        ckw = {"dtype": dt} if dt else {}
+        ctx.label("constructor_with_errors2")
+        if dt and np.dtype(dt).kind == "i" and fractional:
+            ctx.refused("integer histogram with fractional squared errors", lambda: Histogram1D(edges, fr, errors2=e2, **ckw))
+        else:
+            hc = ctx.call("Histogram1D(bins, frequencies, errors2=...)", lambda: Histogram1D(edges, fr, errors2=e2, **ckw))
+            consistent(hc, "constructor")
+            tol_ = 2.0 ** -9 if hc.dtype == np.float16 else 0.0
+            for i in range(n_):
+                require(abs(float(hc.errors2[i]) - e2[i]) <= tol_ * e2[i], "constructed_errors2", f"bin {i}: errors2 {hc.errors2[i]!r} for the given {e2[i]!r} (dtype {hc.dtype})")
+                require(float(hc.frequencies[i]) == float(fr[i]), "constructed_value", f"bin {i}: {hc.frequencies[i]!r} for the given {fr[i]!r}")
+        ctx.nt(fractional)
+        return
     if dt and np.dtype(dt).kind == "i" and wk == "float":
         ctx.refused("integer histogram with float weights", physt.h1, data, edges, **kw)
         if case["nd"]:
@@ -507,7 +528,8 @@ def construct_cases(draw, tier="quick"):
     wk = draw(st.sampled_from(["none", "int", "float"]))
     ws = None if wk == "none" else draw(st.lists(st.integers(0, 5) if wk == "int" else gen.dyadics(32, 2), min_size=len(data), max_size=len(data)))
     return {"pairs": ps, "data": data, "wkind": wk, "weights": ws, "dtype": draw(st.sampled_from([None] + DTYPES[:6])), "nd": draw(st.booleans()),
-            "wdtype": draw(st.sampled_from([None, None, "float32", "float16", "float64"]))}
+            "wdtype": draw(st.sampled_from([None, None, "float32", "float16", "float64"])),
+            "ctor_err2": draw(st.sampled_from([None, None, None, 0, 1, 2, 3]))}
 
 
 FINDINGS = []
@@ -519,3 +541,4 @@ SUBS = [
 
 RULE += ' Also: assignment to frequencies / errors2 with arrays of other element types; numpy scalar weights of several widths in fill; contents next to the limits of int16 / int32 / float16.'
 RULE += ' construct: float weight arrays of float16 / float32 / float64 with an integer dtype requested.'
+RULE += ' construct: the class constructor with integer contents and fractional squared errors (kept in a float type, or refused when an integer dtype is requested).'
